@@ -83,3 +83,9 @@ def fill(claim, NA):
         "Trusted: CrossHair+z3; bs4's verbatim emission with formatter=None and lxml's parse of the constant skeleton (contracts; counterexamples replayed through the real writer + lxml.etree). Ids are not symbolic.",
         "CrossHair symbolic execution + z3 over attribute strings and layout selectors",
     )
+    claim(
+        "C12",
+        "Bounded symbolic execution of the DFXP positioning round trip (real DFXPWriter and RegionCreator on a recording stub of bs4, serialised verbatim, then the real DFXPReader with its layout-aware parser on that text): for all combinations of language/caption/positioned-span layouts out of a pool with equal-valued duplicates and the default region, every text keeps its effective layout; WebVTT cue settings equal the reference arithmetic (position = x + left padding, line = y + top padding, size = width - paddings, align omitted when centred) over a pool of two-decimal values, cue splitting by layout and verbatim pass-through of settings read from WebVTT.",
+        "Trusted: CrossHair+z3 (finite pools; no symbolic floats), bs4 serialisation contract on the writer side, deterministic stand-in for hash() in geometry. The arithmetic over all values is C13.",
+        "CrossHair symbolic execution + z3 over layout selectors",
+    )
